@@ -39,6 +39,11 @@ def match_on(body, ty_suffix):
 
 
 def run(ctx):
+    _run_main(ctx)
+    ruv_delta_after_clear(ctx)
+
+
+def _run_main(ctx):
     F = ctx.facts
     ctx.explanation = ("Every field of the DbBackup variant written by backup is bound and consumed in restore's matching arm; restore's success returns are reachable only with a present, "
                        "equal version; callers commit behind the Ok result; both compressions share the deserialiser. Structural clauses, not content equality.")
@@ -234,3 +239,58 @@ def run(ctx):
             wr = [c for c in all_calls(arm["body"]) if c.get("e") == "mcall" and c.get("name") in ("write", "write_all") and not c.get("exp")] if arm else []
             ok = bool(wr) and all(Pb.local_roots(c["args"][0]) & sl for c in wr)
             ctx.check(ok, R, bk["fn"], f"encode:{v}", f"{v} writes the serialised backup", f"backup's {v} arm does not write the serialised DbBackup string", file=bk["file"], line=(arm or {}).get("body", {}).get("line"))
+
+
+# ---------------------------------------------------------------------------------------------------------------------
+# restore() clears the replication update vector and rebuilds it from the backup inside one transaction; commit then
+# persists the RUV as a delta (added(), removed()) against what is on disk. "Cleared in this transaction" is recorded in
+# a field that clear() resets; both delta functions must consult it, otherwise ids of the pre-restore database that the
+# backup does not contain stay in the ruv table and come back after a restart — the restored database advertises changes the
+# backup never had. (added after seeded change C13: removed() stopped looking at the cleared marker)
+
+def ruv_delta_after_clear(ctx):
+    R = "K4-ruv-delta-honours-clear"
+    T = "kanidmd_lib::repl::ruv::ReplicationUpdateVectorWriteTransaction::<'_>::"
+    clear = ctx.fn(LIB, T + "clear")
+    selfl = clear["params"][0]["pat"].get("local") if clear["params"] else None
+
+    def self_fields(fn, kinds):
+        out = set()
+        sl = fn["params"][0]["pat"].get("local") if fn["params"] else None
+        for n in walk(fn["body"]):
+            if "assign" in kinds and n.get("e") == "assign":
+                l = unwrap(n["l"])
+                if l.get("e") == "field" and unwrap(l["x"]).get("e") == "path" and unwrap(l["x"])["res"].get("local") == sl:
+                    out.add(l["f"])
+            if "read" in kinds and n.get("e") == "field":
+                x = unwrap(n["x"])
+                if x.get("e") == "path" and x["res"].get("local") == sl:
+                    out.add(n["f"])
+        return out
+
+    marker = self_fields(clear, {"assign"})
+    if not ctx.check(bool(marker), R, clear["fn"], "clear-marks-transaction", f"clear() resets {sorted(marker)}",
+                     "clear() no longer records that the vector was cleared in this transaction (no field is reset): shape not understood",
+                     file=clear["file"], line=clear["line"]):
+        return
+    # restore() does clear the RUV (so the marker matters for backup/restore)
+    rs = ctx.fn(LIB, RESTORE)
+    restore_clears = any(is_call_to(c, T + "clear", "ReplicationUpdateVectorWriteTransaction::<'_>::clear") for c in all_calls(rs["body"]))
+    if not restore_clears:
+        # reached through a helper: accept any call path of depth 2 in the backend
+        for c in all_calls(rs["body"]):
+            cal = callee_of(c)
+            d = ctx.facts.fn(LIB, cal) if cal.startswith("kanidmd_lib::") else None
+            if d is not None and any(is_call_to(x, "ReplicationUpdateVectorWriteTransaction::<'_>::clear") for x in all_calls(d["body"])):
+                restore_clears = True
+    ctx.check(restore_clears, R, rs["fn"], "restore-clears-ruv", "restore() clears the RUV before loading the backup",
+              "restore() no longer clears the replication update vector before loading the backup: ids of the old database survive the restore",
+              file=rs["file"], line=rs["line"])
+    for fname in ("removed", "added"):
+        f = ctx.fn(LIB, T + fname)
+        reads = self_fields(f, {"read"})
+        ctx.check(bool(marker & reads), R, f["fn"], f"{fname}-consults-cleared-marker", f"{fname}() looks at {sorted(marker & reads)}",
+                  f"{fname}() does not consult {sorted(marker)}, the field clear() resets: after a restore over a database that has moved on, the persisted "
+                  f"ruv delta is computed as if nothing had been cleared — stale change ids of the pre-restore database stay on disk (or backup ids are not "
+                  "written) and reappear after a restart, so the restored database no longer equals the backup's replication state",
+                  file=f["file"], line=f["line"])
